@@ -262,3 +262,7 @@ Proof.
   destruct (code =? c_codeIncorrectServerSalt); [|split; reflexivity].
   rewrite update_salt_empty. simpl. auto.
 Qed.
+
+(* the lookahead of updateSalt is the 5 minutes of the property *)
+Lemma deadline_5min now : deadline now = (now + 300 * 1000000000) / 1000000000.
+Proof. reflexivity. Qed.
